@@ -439,7 +439,7 @@ def indexed_stat_cases(draw):
 
 
 def checks(tier):
-    n = {"quick": (4000, 1600, 600), "thorough": (320000, 120000, 40000)}.get(tier, (10, 10, 10))
+    n = {"quick": (8000, 3000, 1000), "thorough": (320000, 120000, 40000)}.get(tier, (10, 10, 10))
     return [
         Check("statistics", fn_stat, strategy=stat_cases(), examples=n[0]),
         Check("histograms", fn_hist, strategy=hist_cases(), examples=n[1]),
